@@ -87,6 +87,13 @@ inline void wire_seeds(std::map<std::string, std::vector<Seed> >& m, std::set<ui
     push_seed(m, seen, "RadioTap", "wire:radiotap vendor-ns", H("00 00 16 00  0e 00 00 40   00 02 6c 09 a0 00 d0 00  00 11 22 00 02 00 aa bb   d4 00 00 00 02 11 22 33 44 55") );
     push_seed(m, seen, "RadioTap", "wire:radiotap tsft+fcs", H("00 00 12 00  03 00 00 00  88 77 66 55 44 33 22 11  10 00   d4 00 00 00 02 11 22 33 44 55 de ad be ef"));
     push_seed(m, seen, "RadioTap", "wire:radiotap mcs+xchan", H("00 00 1a 00  00 00 0c 00   40 01 00 00 6c 09 01 11   07 00 05 00 00 00 00 00 00 00  d4 00 00 00 02 11 22 33 44 55"));
+    // it_len that is not a multiple of 4 with the ext bit set in the last COMPLETE present word (the next word would be partial)
+    push_seed(m, seen, "RadioTap", "wire:radiotap ext partial-word 10", H("00 00 0a 00  00 00 00 80  00 00   d4 00 00 00 02 11 22 33 44 55"));
+    push_seed(m, seen, "RadioTap", "wire:radiotap ext partial-word 15", H("00 00 0f 00  00 00 00 80  00 00 00 80  00 00 00   d4 00 00 00 02 11 22 33 44 55"));
+    push_seed(m, seen, "RadioTap", "wire:radiotap header only", H("00 00 08 00  00 00 00 00"));
+    // PPI whose field data ends exactly in front of the 802.11-common flags octet (pph_len 20 = 8 + 12) and one octet later
+    push_seed(m, seen, "PPI", "wire:ppi dot11 len20", H("00 00 14 00 69 00 00 00  02 00 08 00  00 00 00 00 00 00 00 00   d4 00 00 00 02 11 22 33 44 55 01 02 03 04"));
+    push_seed(m, seen, "PPI", "wire:ppi dot11 len21", H("00 00 15 00 69 00 00 00  02 00 09 00  00 00 00 00 00 00 00 00 01   d4 00 00 00 02 11 22 33 44 55 01 02 03 04"));
     // PPI (not serializable): header + ethernet frame; header + 802.11 common field with FCS flag + ACK frame
     push_seed(m, seen, "PPI", "wire:ppi eth", H("00 00 08 00 01 00 00 00   02aabbccddee 021122334455 0800 4500001c00010000401100000a0000010a000002 0001000200080000"));
     push_seed(m, seen, "PPI", "wire:ppi dot11", H("00 00 20 00 69 00 00 00  02 00 14 00  00 00 00 00 00 00 00 00 01 00 02 00 6c 09 a0 00 00 00 d8 a1   d4 00 00 00 02 11 22 33 44 55 01 02 03 04"));
